@@ -113,14 +113,28 @@ def exit_shape(toks, name):
 
 
 def pops_loop_shape(toks):
+    """emit_exc_handler_pops: 2 = one PopExcHandler per try block left (`for _ in try_depth..<c>.try_depth { emit }`),
+    1 = at most one (`if <c>.try_depth > try_depth { emit }`), 0 = none; anything else is an error"""
     o, c = fn_body(toks, "emit_exc_handler_pops")
     t = texts(toks, o, c)
+    pops = emits(toks, o, c, "PopExcHandler")
+    if not pops:
+        return 0
+    if len(pops) != 1:
+        raise ValueError("emit_exc_handler_pops: more than one PopExcHandler")
     loop = find_seq(toks, ["for", "_", "in", "try_depth", ".."], o, c)
-    ok = loop >= 0 and has(t, ["try_depth", "{"]) and len(emits(toks, o, c, "PopExcHandler")) == 1
-    if ok:
+    if loop >= 0 and has(t, ["try_depth", "{"]):
         bo, bc = body_after(toks, loop)
-        ok = bo < emits(toks, o, c, "PopExcHandler")[0] < bc
-    return ok
+        if bo < pops[0] < bc and toks[bo - 1].text == "try_depth":
+            return 2
+    cond = find_seq(toks, ["if"], o, c)
+    if cond >= 0:
+        bo, bc = body_after(toks, cond)
+        ct = texts(toks, cond + 1, bo)
+        if bo < pops[0] < bc and (ct[-2:] == [">", "try_depth"] and "try_depth" in ct[:-2] or
+                                  ct[:2] == ["try_depth", "<"] and "try_depth" in ct[2:]):
+            return 1
+    raise ValueError("emit_exc_handler_pops: shape not recognised")
 
 
 def return_shape(toks, name):
@@ -277,7 +291,10 @@ def gen_tryarms(man):
     catch_pop, try_ok, operands_ok = try_shape(ct)
     b_ord, b_fin, b_scope = exit_shape(ct, "break_statement")
     c_ord, c_fin, c_scope = exit_shape(ct, "continue_statement")
-    pops_loop = pops_loop_shape(ct) if (b_ord or c_ord) else True
+    pops_mode = pops_loop_shape(ct)
+    if b_ord != c_ord:
+        raise ValueError("break_statement and continue_statement differ in popping handlers")
+    pops_loop = pops_mode == 2
     ret_jf = return_shape(ct, "return_statement") and return_shape(ct, "emit_return")
     he_mode, innermost, unwind_ok, records = unwind_shape(vt, ot)
     t_sets, v_sets, n_sets, err_placed = raise_sites(vt)
@@ -293,6 +310,7 @@ def gen_tryarms(man):
         ("(* compiler.rs fn break_statement / fn continue_statement / fn emit_exc_handler_pops *)", None),
         ("gen_break_pops_handlers", b_ord and pops_loop),
         ("gen_continue_pops_handlers", c_ord and pops_loop),
+        ("gen_break_pops_mode", pops_mode if (b_ord and c_ord) else 0),
         ("gen_break_runs_finally", b_fin or c_fin),
         ("gen_break_scope_pops_before_jump", b_scope and c_scope),
         ("(* compiler.rs fn return_statement / fn emit_return *)", None),
